@@ -5,8 +5,8 @@
  *   num <base> <hex>     janet_scan_number_base (base 0: janet_scan_number)   -> "ok <bits16>" | "err"
  *   i64 <hex>            janet_scan_int64                                      -> "ok <dec>" | "err"
  *   u64 <hex>            janet_scan_uint64                                     -> "ok <dec>" | "err"
- *   p17 <bits16>         janet_buffer_dtostr / %j / string-format %.17g        -> "<text> <text-j> <text-fmt> <bits16 read back>"
- *   pint <bits16>        janet_to_string of an integer-valued double           -> "<text> <bits16 read back>"
+ *   p17 <bits16>         janet_buffer_dtostr, %j, %.17g (formatc and buffer_format)  -> "<text> x5 <bits16 read back>"
+ *   pint <bits16>        string / describe / %v %q %p %j %V %d of an integer-valued double -> "<text> x12 <bits16 read back>"
  *   s64rt <dec> / u64rt <dec>   tostring of a boxed int, then scan back        -> "<text> ok <dec>" | "<text> err"
  *   big <base> <ex> <hex>   internal state after the scaling loops of convert() -> "n first d0 d1 ..." (digit array dump)
  */
@@ -71,25 +71,51 @@ int main(void) {
             if (janet_scan_uint64(b, len, &v)) printf("ok %" PRIu64 "\n", v); else printf("err\n");
             free(b);
         } else if (!strncmp(line, "p17 ", 4)) {
+            /* every 17-significant-digit printing path: janet_buffer_dtostr, %j and %.17g through janet_formatc
+             * (janet_formatbv) and through janet_buffer_format (string/format, printf) */
             uint64_t u = strtoull(line + 4, NULL, 16);
             double d = of_bits(u);
             JanetBuffer *buf = janet_buffer(0);
             janet_buffer_dtostr(buf, d);
             fwrite(buf->data, 1, buf->count, stdout);
-            printf(" ");
-            const uint8_t *sj = janet_formatc("%j", janet_wrap_number(d));
-            fwrite(sj, 1, janet_string_length(sj), stdout);
-            printf(" ");
-            const uint8_t *sf = janet_formatc("%.17g", d);
-            fwrite(sf, 1, janet_string_length(sf), stdout);
+            const char *fmts[2] = {"%j", "%.17g"};
+            for (int k = 0; k < 2; k++) {
+                const uint8_t *sj = k == 0 ? janet_formatc("%j", janet_wrap_number(d)) : janet_formatc("%.17g", d);
+                printf(" ");
+                fwrite(sj, 1, janet_string_length(sj), stdout);
+            }
+            for (int k = 0; k < 2; k++) {
+                Janet argv[2] = { janet_cstringv(fmts[k]), janet_wrap_number(d) };
+                JanetBuffer *b2 = janet_buffer(0);
+                janet_buffer_format(b2, fmts[k], 0, 2, argv);
+                printf(" ");
+                fwrite(b2->data, 1, b2->count, stdout);
+            }
             printf(" ");
             readback(buf->data, buf->count);
             printf("\n");
         } else if (!strncmp(line, "pint ", 5)) {
+            /* every printing path of an integer-valued double: string (janet_to_string), describe (janet_description),
+             * %v %q %p %j via janet_formatc, %v %V %q %p %j %d via janet_buffer_format */
             uint64_t u = strtoull(line + 5, NULL, 16);
             double d = of_bits(u);
-            const uint8_t *s = janet_to_string(janet_wrap_number(d));
+            Janet x = janet_wrap_number(d);
+            const uint8_t *s = janet_to_string(x);
             fwrite(s, 1, janet_string_length(s), stdout);
+            const uint8_t *t = janet_description(x);
+            printf(" "); fwrite(t, 1, janet_string_length(t), stdout);
+            const char *f1[4] = {"%v", "%q", "%p", "%j"};
+            for (int k = 0; k < 4; k++) {
+                const uint8_t *sj = janet_formatc(f1[k], x);
+                printf(" "); fwrite(sj, 1, janet_string_length(sj), stdout);
+            }
+            const char *f2[6] = {"%v", "%V", "%q", "%p", "%j", "%d"};
+            for (int k = 0; k < 6; k++) {
+                Janet argv[2] = { janet_cstringv(f2[k]), x };
+                JanetBuffer *b2 = janet_buffer(0);
+                janet_buffer_format(b2, f2[k], 0, 2, argv);
+                printf(" "); fwrite(b2->data, 1, b2->count, stdout);
+            }
             printf(" ");
             readback(s, janet_string_length(s));
             printf("\n");
